@@ -428,7 +428,23 @@ class ndarray:
             self._store[i] = cast_cell(v, self.dtype)
 
     def view(self, *a, **k):
-        return ndarray(self._store, list(self._idx), self._shape, self.dtype, self._scalar)
+        dt = k.get('dtype', a[0] if a else None)
+        if dt is None:
+            return ndarray(self._store, list(self._idx), self._shape, self.dtype, self._scalar)
+        dt = as_dtype(dt)
+        if dt == self.dtype:
+            return ndarray(self._store, list(self._idx), self._shape, self.dtype, self._scalar)
+        if dt.kind in 'iu' and self.dtype.kind in 'iu' and dt.itemsize == self.dtype.itemsize:
+            # same bytes read with the other signedness: the cells are shared, so every value must mean the same under both dtypes
+            lo, hi = _int_bounds(dt)
+            for c in self._cells():
+                vlo, vhi = T.irange(c) if _isinstance(c, (int, SInt)) else (None, None)
+                if vlo is None or vlo < lo or vhi > hi:
+                    ok = T.b_and(T.icmp(c, lo, '>='), T.icmp(c, hi, '<='))
+                    if not (ok is True or (ok is not False and T.EX is not None and T.EX.implied(ok))):
+                        raise OutOfModel('view(%s) of a %s array whose values do not fit both dtypes' % (dt, self.dtype))
+            return ndarray(self._store, list(self._idx), self._shape, dt, self._scalar)
+        raise OutOfModel('view(%s) of a %s array' % (dt, self.dtype))
 
     # ---- indexing
     def _sel(self, index):
@@ -496,6 +512,36 @@ class ndarray:
     def __pos__(s): return _unop('pos', s)
     def __abs__(s): return _unop('abs', s)
     def __invert__(s): return _unop('invert', s)
+
+    # in-place operators mutate the shared store (views and the owner see the change), like NumPy
+    def _inplace(s, op, o):
+        r = _binop(op, s, o)
+        if r is NotImplemented:
+            return r
+        rdt = r.dtype if _isinstance(r, ndarray) else None
+        if rdt is not None and rdt != s.dtype and not _np.can_cast(rdt, s.dtype, 'same_kind'):
+            raise TypeError("Cannot cast ufunc '%s' output from %s to %s with casting rule 'same_kind'" % (op, rdt, s.dtype))
+        rc = r._cells() if _isinstance(r, ndarray) else [r]
+        if _b.len(rc) != _b.len(s._idx):
+            if _b.len(rc) == 1:
+                rc = rc * _b.len(s._idx)
+            else:
+                raise ValueError('non-broadcastable output operand')
+        for i, c in zip(s._idx, rc):
+            s._store[i] = cast_cell(c, s.dtype, rdt)
+        return s
+
+    def __iadd__(s, o): return s._inplace('add', o)
+    def __isub__(s, o): return s._inplace('sub', o)
+    def __imul__(s, o): return s._inplace('mul', o)
+    def __ifloordiv__(s, o): return s._inplace('floordiv', o)
+    def __imod__(s, o): return s._inplace('mod', o)
+    def __itruediv__(s, o): return s._inplace('truediv', o)
+    def __iand__(s, o): return s._inplace('and', o)
+    def __ior__(s, o): return s._inplace('or', o)
+    def __ixor__(s, o): return s._inplace('xor', o)
+    def __ilshift__(s, o): return s._inplace('lshift', o)
+    def __irshift__(s, o): return s._inplace('rshift', o)
     def __matmul__(s, o): return dot(s, o)
 
     def __round__(s, n=None):
